@@ -213,26 +213,21 @@ def r1_guards(ctx) -> None:
     # ---- DfBase.add: integer wire in an untracked builder
     q = "hugr.build.dfg.DfBase.add"
     fn_o, mod, cls = ctx.locate(q)
-    fn = ctx.cfn(q)
-    helper = [n for n in ast.walk(fn) if isinstance(n, ast.FunctionDef) and n is not fn]
-    raises_in_helper = helper and any(isinstance(s_, ast.Raise) and "ValueError" in u(s_) for s_ in ast.walk(helper[0]))
-    uses = [n for n in ast.walk(fn) if isinstance(n, ast.IfExp) and tmatch(n.test.operand if isinstance(n.test, ast.UnaryOp) else n.test, T("isinstance(L_w, int)")) is not None]
-    direct = [n for n in ast.walk(fn) if isinstance(n, ast.If) and tmatch(n.test, T("isinstance(L_w, int)")) is not None
-              and any(isinstance(s_, ast.Raise) and "ValueError" in u(s_) for b in n.body for s_ in ast.walk(b))]
-    add_ops = calls_in(fn, "add_op")
-    ok = False
-    if direct and add_ops:
-        # the refusing loop comes before the node is created
-        ok = all(d.lineno < add_ops[0].lineno for d in direct)
-    elif raises_in_helper and uses and add_ops:
-        e = uses[0]
-        neg = isinstance(e.test, ast.UnaryOp)
-        int_branch = e.orelse if neg else e.body
-        ok = any(call_name(c) == helper[0].name for c in calls_in(int_branch))
-        # the checked sequence is what add_op receives
-        comp = [n for n in ast.walk(fn) if isinstance(n, (ast.GeneratorExp, ast.ListComp)) and e in list(ast.walk(n))]
-        ok = ok and bool(comp) and any(isinstance(a, ast.Starred) and (a.value is comp[0] or (isinstance(a.value, ast.Name) and any(
-            isinstance(s_, ast.Assign) and u(s_.targets[0]) == a.value.id and s_.value is comp[0] for s_ in ast.walk(fn)))) for a in add_ops[0].args)
+    closures = {n.name for n in ast.walk(fn_o) if isinstance(n, ast.FunctionDef) and n is not fn_o}
+    fn = ctx.cfn(q, inline=closures)
+    cp = fn_o.args.args[1].arg
+    # canonical body: refusing helpers are conditional expressions with raise_(exc) (hv/canon.py); the sequence add_op receives is the
+    # command's arguments with every int refused -- or a refusing loop over them comes first
+    from ..tmpl import tfind
+    checked = f"(raise_(ValueError(ANY_)) if isinstance(c0, int) else c0 for c0 in {cp}.incoming)"
+    ok = bool(tfind(fn, T(f"self.add_op(E_op, *{checked}, metadata=E_m)")))
+    if not ok:
+        ps = ctx.paths(q, inline=closures)
+        refusing = [p for p in ps if p.kind == "raise" and "ValueError" in p.value_text() and
+                    any(tmatch(t, T("isinstance(L_w, int)")) is not None and k for t, k in p.tests)]
+        adding = [p for p in ps if p.kind != "raise" and (p.find_effect("self.add_op(ANY_)") or "self.add_op(" in p.value_text())]
+        ok = bool(refusing) and bool(adding) and not any(p.find_effect("self.add_op(ANY_)") for p in refusing) and all(
+            any(isinstance(e, ast.For) and f"{cp}.incoming" in u(e.iter) and any(isinstance(x, ast.Raise) for x in ast.walk(e)) for e in p.effects) for p in adding)
     ctx.check(ok, "C13.R1", "build.dfg.DfBase.add: ValueError for integer wires", mod.path, fn_o.lineno,
               "a command holding integer indices given to an untracked builder must raise ValueError before the node is wired", fn_o)
 
